@@ -96,3 +96,30 @@ Print Assumptions c13_known_target_names_positions.
 Theorem c13_columns_with_metadata_unguarded_refuted : ~ lemma_B_md_unguarded.
 Proof. exact lemma_B_md_unguarded_refuted. Qed.
 Print Assumptions c13_columns_with_metadata_unguarded_refuted.
+
+(** (a) SELECT * / q.* over a table whose columns the catalog knows contributes exactly the catalog's columns
+    (Tree/LemmaBMeta2.v: the exact holder after end_of_query_cleanup + expand_wildcard incl. the two node removals) *)
+From SV Require Import Tree.LemmaBMeta2 Ident.Escape.
+
+Theorem c13_star_expands_to_catalog_columns : forall noise e base (s : stmt) t qq from cj,
+  noise_ok noise = true -> env_ok_md e = true -> p_truthy (e_provider e) = true ->
+  (s = SInsert t None (QSelect [IStar qq] from cj None) /\ is_known base (tref_str (e_cfg e) t) = false
+   \/ s = SCtas t (QSelect [IStar qq] from cj None) \/ s = SView t (QSelect [IStar qq] from cj None)) ->
+  stmt_ok s = true -> sshape s = true -> colshape s = true -> sel_tables_syntactic s = true ->
+  (forall r, In r from -> match qq with Some q => rname r = q | None => True end ->
+             exists cols, rel_known (e_cfg e) base r = Some cols /\ forallb id_ok cols = true) ->
+  script_pairs e false base [r_stmt noise s] = spec_pairs_md (e_cfg e) base s.
+Proof. exact c13_star_expands. Qed.
+Print Assumptions c13_star_expands_to_catalog_columns.
+
+(** (c) against the specification: INSERT without column list into a known target from unknown sources reports the
+    specified pairs (the catalog names the positions) *)
+Theorem c13_known_target_names_positions_spec : forall noise e base t tc items from cj,
+  let s1 := SInsert t None (QSelect items from cj None) in let s2 := SInsert t (Some tc) (QSelect items from cj None) in
+  noise_ok noise = true -> env_ok_md e = true -> p_truthy (e_provider e) = true ->
+  stmt_ok s2 = true -> sshape s2 = true -> colshape s2 = true -> sel_tables_syntactic s2 = true ->
+  items_plain_b items = true -> known base (tref_str (e_cfg e) t) = Some tc ->
+  forallb (fun r => negb (rel_is_known (e_cfg e) base r)) from = true ->
+  script_pairs e false base [r_stmt noise s1] = spec_pairs_md (e_cfg e) base s1.
+Proof. exact c13_insert_positions_spec. Qed.
+Print Assumptions c13_known_target_names_positions_spec.
